@@ -130,6 +130,10 @@ def _run_one(arg):
 
 
 if __name__ == '__main__':
+    if '--view' in sys.argv:
+        i = sys.argv.index('--view')
+        core.VIEWS[:] = [sys.argv[i + 1]]
+        del sys.argv[i:i + 2]
     ids = set(a for a in sys.argv[1:] if not a.startswith('-')) or None
     res, dt = run_all(ids=ids)
     for r in res:
